@@ -194,7 +194,7 @@ def orchestrate(args):
         return 2
 
     for k, h in sorted(known_hits.items()):
-        print(f"KNOWN-FINDING: property={prop} {k} {known[k]['what']} (hit {h['count']}x)")
+        print(f"KNOWN-FINDING: property={prop} {k} {known[k]["what"][:220]} (hit {h['count']}x)")
     for k, path in sorted(seen_keys.items()):
         print(f"VIOLATION property={prop} replay={path}")
         det = [v for _, _, v in violations if v["key"] == k][0]["detail"]
